@@ -161,6 +161,7 @@ type Kernel struct {
 	Orphans      []Seen // handler invocations with no call id
 	TS           *TSBridge
 	tsQueue      []*tsPending
+	held         []kmsg
 }
 
 const maxSteps = 20000
@@ -295,7 +296,8 @@ func (k *Kernel) enabled(now time.Duration) (en []event, next time.Duration) {
 }
 
 func (k *Kernel) drain() {
-	var msgs []kmsg
+	msgs := k.held
+	k.held = nil
 	for {
 		select {
 		case m := <-k.inbox:
@@ -306,7 +308,14 @@ func (k *Kernel) drain() {
 		break
 	}
 	if len(msgs) > 1 {
-		sort.SliceStable(msgs, func(a, b int) bool { return msgs[a].ord < msgs[b].ord })
+		// goroutines woken by timers at the same virtual instant post in scheduler
+		// order: process them in a fixed order instead
+		sort.SliceStable(msgs, func(a, b int) bool {
+			if msgs[a].ord != msgs[b].ord {
+				return msgs[a].ord < msgs[b].ord
+			}
+			return msgs[a].kind < msgs[b].kind
+		})
 	}
 	for _, m := range msgs {
 		k.handle(m)
@@ -319,7 +328,7 @@ func (k *Kernel) handle(m kmsg) {
 		m.conn.id = len(k.conns)
 		k.conns = append(k.conns, m.conn)
 		m.conn.call.Conns = append(m.conn.call.Conns, m.conn)
-		k.Event("dial", "conn=%d op=%d bytes=%d h=%s", m.conn.id, m.conn.call.Op.ID, len(m.conn.c2s.pending), shortHash(m.conn.c2s.pending))
+		k.Event("dial", "conn=%d op=%d bytes=%d h=%s", m.conn.id, m.conn.call.Op.ID, len(m.conn.c2s.pending), bagHash(m.conn.c2s.pending))
 		if k.Race != nil {
 			m.conn.sendClock = k.Race.snapshot(m.conn.call.Idx)
 		}
@@ -340,7 +349,7 @@ func (k *Kernel) handle(m kmsg) {
 		if k.Race != nil {
 			m.conn.respClock = k.Race.snapshot(1000 + m.conn.id)
 		}
-		k.Event("server-done", "conn=%d status=%d bytes=%d", m.conn.id, m.conn.status, len(m.conn.s2c.pending))
+		k.Event("server-done", "conn=%d status=%d bytes=%d h=%s", m.conn.id, m.conn.status, len(m.conn.s2c.sent), bagHash(m.conn.s2c.sent))
 	}
 }
 
@@ -412,7 +421,9 @@ func (k *Kernel) Run() {
 			select {
 			case m := <-k.inbox:
 				tm.Stop()
-				k.handle(m)
+				// others woken at the same instant may still be running: collect them all
+				// (after quiescence) before handling any, in a fixed order
+				k.held = append(k.held, m)
 			case <-tm.C:
 				if next < 0 {
 					// nothing can ever happen again: outstanding calls are hung
@@ -573,6 +584,24 @@ func (k *Kernel) drainQuiet() {
 }
 
 var errConnClosed = errors.New("sim: connection closed")
+
+// bagHash hashes the multiset of bytes of b: sensitive to content, insensitive to the
+// order in which unordered collections were serialised (proto.Marshal emits map entries
+// in Go's random map order; the generated validateHeaders lists violations in map
+// order). It is what the event log (the determinism witness) records for payloads.
+func bagHash(b []byte) string {
+	var counts [256]uint32
+	for _, c := range b {
+		counts[c]++
+	}
+	h := sha256.New()
+	for i, n := range counts {
+		if n > 0 {
+			fmt.Fprintf(h, "%d:%d,", i, n)
+		}
+	}
+	return hex.EncodeToString(h.Sum(nil)[:4])
+}
 
 func shortHash(b []byte) string {
 	h := sha256.Sum256(b)
